@@ -206,7 +206,10 @@ From Discv5V Require Import Proofs.HandlerB_Trace Proofs.HandlerB_Trace2 Proofs.
    freshness of the (eph, cd) draws of distinct handshakes: a hypothesis on the oracle.
    Partial because (1) of that hypothesis and (2) handshake packets, whose message is encrypted under
    the new key with a raw random 12-byte nonce, are not covered: that their nonce differs from the later
-   counter nonces under the same key is again a statement about the random number generator. *)
+   counter nonces under the same key is again a statement about the random number generator.
+   The full statement, handshake packets included, with that statement about the random number
+   generator as an explicit hypothesis, is C19_no_nonce_reuse at the end of this file
+   (Proofs/HandlerB_TraceHs.v). *)
 Theorem C19_no_nonce_reuse_partial :
   forall c evs, fresh_installs c init_state [] evs -> NoReuse (concat (snd (run c init_state evs))).
 Proof. exact no_nonce_reuse_partial. Qed.
@@ -282,3 +285,140 @@ Example C19_example_counter :
    [OWire (7, 100) (PMsg 1 (1, 77) 52 (CEnc (mk_key 3 1 5 7 1 true) (1, 77) (MResp 9 (ROther 1)) 52))]].
 Proof. exact counter_after_response. Qed.
 Print Assumptions C19_example_counter.
+
+(* ------------------------------------------------------------------------------------------ *)
+(* trace level, handshake packets included (Proofs/HandlerB_TraceHs.v) *)
+From Discv5V Require Import Proofs.HandlerA_Wire4 Proofs.HandlerB_TraceHs.
+
+(* no_nonce_reuse: the first clause of C19 in full - "any two datagrams it emits that decrypt under the
+   same key either carry different nonces or are byte-identical retransmissions", for message packets
+   AND handshake packets, sessions re-keyed by either side included.
+   [apkt_of o] = (key, nonce, packet) if o is a datagram whose message is a ciphertext: a message packet
+   [OWire _ (PMsg _ _ _ (CEnc k n m a))] or a handshake packet [OWire _ (PHs _ _ _ _ _ _ _ (CEnc k n m a))].
+   [NoReuseAll W]: any two datagrams of W, of either form, with the same key and the same nonce are
+   equal as packets.  It holds for the datagrams of all steps of every run from the initial state -
+   all events, times and configurations - under three hypotheses, all of them about the random number
+   generator (the oracle [draws] of the model), none about the peer or the schedule:
+
+   [fresh_installs] - key terms are not installed twice (see C19_no_nonce_reuse_partial).  It is what
+   makes "under one session key" meaningful across sessions: a handshake packet is encrypted under the
+   initiator key of the session installed by the very call that builds it, so no earlier datagram is
+   under that key, and a counter that restarts at 0 restarts under new keys.
+
+   [fresh_hs_nonces] - the 8 random bytes of the nonce of a handshake packet are not drawn again later
+   in the run: for every step whose event is a WHOAREYOU that makes the handler build a handshake packet
+   ([hc_keys] not empty), the random part of the first draw the implicit tick left over - that draw
+   becomes the handshake nonce (cn, rr) - occurs neither among the rest of that step's draws nor among
+   the draws of the later steps.  Why it is needed: the handshake message is encrypted under the new key
+   with the raw random 12-byte nonce (cn, rr) (Packet::new_authheader), while every later message packet
+   under that key carries (counter, r) with r drawn later; the two nonces collide iff cn = counter and
+   r = rr, and cn is arbitrary.  Nothing is assumed about the random bytes of MESSAGE nonces (they may
+   repeat freely: the counter separates them) nor about the other components of a draw.  Distinctness
+   of the drawn 12-byte nonces as a whole ([NoDup (run_pool evs)], the hypothesis of C04's random_bound)
+   is not enough: C19_hs_nonce_freshness_needed.
+
+   [draws_suffice] (Proofs/HandlerA_Wire4.v) - no step exhausts the list of draws it is given.  The
+   model's oracle returns zeros once its list is empty; rand does not.
+
+   Retransmissions: the request timer sends the stored packet of a request again - for a request
+   answered with a handshake, the stored handshake packet, byte for byte: the same packet, allowed by
+   the property.  Re-keying: Handler::replay_active_requests re-encrypts the requests in flight under
+   the newest key with new counter nonces (skipping the request the handshake packet itself carries).
+   Each hypothesis is needed (the three ..._needed examples below: runs that satisfy the other two
+   hypotheses and emit two different datagrams under one key and nonce); together they are satisfied by
+   C19_example_hs_run. *)
+Theorem C19_no_nonce_reuse :
+  forall c evs,
+  fresh_installs c init_state [] evs -> fresh_hs_nonces c init_state evs -> draws_suffice c init_state evs ->
+  NoReuseAll (concat (snd (run c init_state evs))).
+Proof. exact no_nonce_reuse. Qed.
+Print Assumptions C19_no_nonce_reuse.
+
+(* the same on packets.  [pkt_ct p] = the ciphertext the datagram p carries (message packet or
+   handshake packet): two emitted datagrams whose ciphertexts are under the same key k and nonce n are
+   the same packet - whatever the two messages m, m' and authenticated data a, a' *)
+Theorem C19_no_nonce_reuse_all_packets :
+  forall c evs d1 d2 p1 p2 k n m m' a a',
+  fresh_installs c init_state [] evs -> fresh_hs_nonces c init_state evs -> draws_suffice c init_state evs ->
+  let W := concat (snd (run c init_state evs)) in
+  In (OWire d1 p1) W -> In (OWire d2 p2) W ->
+  pkt_ct p1 = Some (CEnc k n m a) -> pkt_ct p2 = Some (CEnc k n m' a') ->
+  p1 = p2.
+Proof. exact no_nonce_reuse_all_packets. Qed.
+Print Assumptions C19_no_nonce_reuse_all_packets.
+
+(* the case C19_no_nonce_reuse_partial left open: a handshake packet and a message packet under one key
+   never carry the same nonce *)
+Theorem C19_hs_msg_nonces_differ :
+  forall c evs d1 d2 s1 n1 a1 sg eph ok rc s2 n2 a2 k n n' m m' a a',
+  fresh_installs c init_state [] evs -> fresh_hs_nonces c init_state evs -> draws_suffice c init_state evs ->
+  let W := concat (snd (run c init_state evs)) in
+  In (OWire d1 (PHs s1 n1 a1 sg eph ok rc (CEnc k n m a))) W ->
+  In (OWire d2 (PMsg s2 n2 a2 (CEnc k n' m' a'))) W ->
+  n <> n'.
+Proof. exact hs_msg_nonces_differ. Qed.
+Print Assumptions C19_hs_msg_nonces_differ.
+
+(* [fresh_hs_nonces] follows from the plain (and much stronger) statement "the 8 random bytes of all
+   nonces drawn in the run are pairwise distinct": [run_rpool evs] = the second components of the draws
+   of all steps, = [map snd (run_pool evs)] *)
+Theorem C19_no_nonce_reuse_distinct_draws :
+  forall c evs,
+  fresh_installs c init_state [] evs -> NoDup (run_rpool evs) -> draws_suffice c init_state evs ->
+  NoReuseAll (concat (snd (run c init_state evs))).
+Proof. exact no_nonce_reuse_distinct_draws. Qed.
+Print Assumptions C19_no_nonce_reuse_distinct_draws.
+
+Theorem C19_run_rpool_is_pool : forall evs, run_rpool evs = map snd (run_pool evs).
+Proof. exact run_rpool_pool. Qed.
+Print Assumptions C19_run_rpool_is_pool.
+
+(* the hypotheses are jointly satisfiable by a run that contains a handshake packet, its retransmission
+   by the request timer and two later message packets, all under the same key ke8: [wire_summary] lists,
+   per datagram, (handshake packet?, key, nonce) of its ciphertext *)
+Example C19_example_hs_run :
+  fresh_installs hs_cfg init_state [] evs_hs_ok /\ fresh_hs_nonces hs_cfg init_state evs_hs_ok /\
+  draws_suffice hs_cfg init_state evs_hs_ok /\
+  wire_summary (concat (snd (run hs_cfg init_state evs_hs_ok))) =
+    [None; Some (true, ke8, (5, 5)); None; Some (true, ke8, (5, 5)); Some (false, ke8, (1, 70));
+     Some (false, ke8, (2, 71))] /\
+  NoReuseAll (concat (snd (run hs_cfg init_state evs_hs_ok))).
+Proof.
+  split; [exact evs_hs_ok_installs | split; [exact evs_hs_ok_nonces | split; [exact evs_hs_ok_draws |
+    split; [exact evs_hs_ok_wire | exact evs_hs_ok_no_reuse]]]].
+Qed.
+Print Assumptions C19_example_hs_run.
+
+(* each hypothesis is needed.  [Reuse W]: W contains two datagrams with the same key and nonce that are
+   different packets (so [NoReuseAll W] fails: Reuse_not).
+   (a) the 8 random bytes of the handshake nonce (1, 5) are drawn again for the first message packet
+   under the new key (counter 1): both carry (1, 5) under ke8.  The drawn 12-byte nonces (1, 5) and
+   (8, 5) are distinct. *)
+Example C19_hs_nonce_freshness_needed :
+  fresh_installs hs_cfg init_state [] evs_hs_clash /\ draws_suffice hs_cfg init_state evs_hs_clash /\
+  NoDup (run_pool evs_hs_clash) /\
+  ~ fresh_hs_nonces hs_cfg init_state evs_hs_clash /\
+  Reuse (concat (snd (run hs_cfg init_state evs_hs_clash))).
+Proof. exact hs_nonce_freshness_needed. Qed.
+Print Assumptions C19_hs_nonce_freshness_needed.
+
+(* (b) a step without draws: the oracle of the model returns zeros *)
+Example C19_draws_suffice_needed :
+  fresh_installs hs_cfg init_state [] evs_hs_dry /\ fresh_hs_nonces hs_cfg init_state evs_hs_dry /\
+  ~ draws_suffice hs_cfg init_state evs_hs_dry /\
+  Reuse (concat (snd (run hs_cfg init_state evs_hs_dry))).
+Proof. exact draws_suffice_needed. Qed.
+Print Assumptions C19_draws_suffice_needed.
+
+(* (c) the session expires and a second handshake installs the same key terms again (same ephemeral
+   key drawn, same challenge data sent by the peer): the counter restarts under the same key *)
+Example C19_fresh_installs_needed :
+  fresh_hs_nonces exp_cfg init_state evs_rekey /\ draws_suffice exp_cfg init_state evs_rekey /\
+  ~ fresh_installs exp_cfg init_state [] evs_rekey /\
+  Reuse (concat (snd (run exp_cfg init_state evs_rekey))).
+Proof. exact fresh_installs_needed. Qed.
+Print Assumptions C19_fresh_installs_needed.
+
+Theorem C19_reuse_refutes : forall W, Reuse W -> ~ NoReuseAll W.
+Proof. exact Reuse_not. Qed.
+Print Assumptions C19_reuse_refutes.
